@@ -21,7 +21,7 @@ func genC07(t *rapid.T) *Case {
 	p.EmptyCells = true
 	p.InlineNestables = true
 	p.RowGaps = true
-	nest := []wc{{"list", 30}, {"quote", 12}, {"pre", 8}, {"dtable", 8}, {"strayli", 2}, {"ulinline", 2}}
+	nest := []wc{{"list", 30}, {"quote", 12}, {"pre", 8}, {"dtable", 8}, {"strayli", 2}, {"ulinline", 2}, {"ctltail", 4}}
 	p.Top = append(append([]wc{}, p.Top...), nest...)
 	p.Core = append(append([]wc{}, p.Core...), nest...)
 	p.Nested = append(append([]wc{}, nestedText...), wc{"list", 12}, wc{"quote", 6}, wc{"pre", 4}, wc{"dtable", 4})
